@@ -41,7 +41,8 @@ def run(ctx):
         gen.generate([t if n is None else n for n, t in targets])
     import os
     tri = os.path.join(os.path.dirname(os.path.dirname(os.path.dirname(os.path.abspath(__file__)))), 'triage', 'c14')
-    targets += [(None, gen.custom_target(os.path.join(tri, 'share.xml'), 'Share', 'SH')), (None, gen.custom_target(os.path.join(tri, 'collide.xml'), 'Collide', 'CO'))]
+    targets += [(None, gen.custom_target(os.path.join(tri, 'share.xml'), 'Share', 'SH')), (None, gen.custom_target(os.path.join(tri, 'collide.xml'), 'Collide', 'CO')),
+                (None, gen.custom_target(os.path.join(tri, 'chain.xml'), 'Chain', 'CH'))]
     totals = {'definitions': 0, 'shared': 0}
     progs, samples = 0, []
     for n, t in targets:
@@ -105,4 +106,43 @@ def run(ctx):
               'a key match is confirmed by comparing the two definitions before they are merged',
               'parse_groups merges two group definitions whenever their 32-bit keys are equal (the result of CommonGroups::insert is ignored and nothing is '
               'compared): definitions that collide under rothash — GF(2)-linear in its value argument, so collisions are constructible — silently share metadata')
+    # the key finally used for the insert was itself tested: no definition of the key reaches the insert without passing the lookup test again
+    # (a colliding definition that is moved to another key may collide there as well - probe chains)
+    if hv:
+        cfg = pg.cfg
+        finds = [x for x in pg.calls() if x.callee is not None and x.callee.get('n') == 'find' and x.args and q.refers_to_decl(x.args[0], hv[0]) and cfg.has_vertex(x)]
+        for c in ins:
+            cv = cfg.vertex_of(c)
+            tests = set()
+            for (b, a, pol) in q.branches(pg, lambda a: any(y in finds for y in a.walk())):
+                tests.add(cfg.block_last[b])
+            before = [f for f in finds if cv in cfg.reach_from(cfg.vertex_of(f))]
+            bad = None
+            for (dn, kind, val) in q.local_defs(pg, hv[0]):
+                if kind not in ('init', 'assign', 'incdec') or not cfg.has_vertex(dn):
+                    continue            # handing the key to make_pair by reference is not a change of the key
+                dv = cfg.vertex_of(dn)
+                if cv not in cfg.reach_from(dv):
+                    continue
+                path = cfg.path(dv, lambda v: v == cv, avoid=tests)
+                if path is not None:
+                    bad = (dn, path)
+                    break
+            ctx.check(bool(tests) and bad is None, 'R14.2', 'parse_groups#key-tested-after-every-change', c.loc,
+                      'every value the merge key takes is looked up (and a hit compared) before it is used for the insert',
+                      'the merge key assigned at %s reaches the insert without being looked up again: a definition moved off a colliding key can land on '
+                      'another taken key (three definitions that collide pairwise) and silently share that definition\'s table' % (bad[0].loc if bad else '?'),
+                      cfg.describe_path(bad[1]) if bad else None)
+    # the confirmation itself must be structural all the way down
+    sg = prog.fns('same_group_definition')
+    if sg:
+        sgf = sg[0]
+        ctx.saw(sgf)
+        rec = any(c.callee_qp == 'same_group_definition' for c in sgf.calls())
+        by_hash = any(c.callee_qp == 'group_hash' for c in sgf.calls()) or any(n.k == 'MemberExpr' and n.decl.get('n') == '_hash' for n in sgf.all_nodes())
+        compared = sorted({n.decl['n'] for n in sgf.all_nodes() if n.k == 'MemberExpr' and n.decl.get('parent', '').endswith('FieldTrait')})
+        ctx.check(rec and not by_hash and {'_fnum', '_pos', '_field_traits'} <= set(compared), 'R14.2', 'same_group_definition#structural', sgf.loc,
+                  'the confirmation compares tag, position and trait bits of every member and recurses into nested groups (no hash involved)',
+                  'the confirmation of a key match is not structural: %s' % ('nested groups are compared through group_hash / _hash, so nested definitions that collide '
+                  'make two different outer definitions "equal"' if by_hash else ('nested groups are not compared' if not rec else 'members compared only by %s' % compared)))
     ctx.floor('R14.1', 30)
